@@ -20,6 +20,10 @@ CLAIMED['C03'] = dict(
    text='Executable Coq specification of the .xz container, LZMA2 and LZMA (range decoder, probability model, all symbol kinds, dictionary as history) written from the format documents; Coq theorems (no axioms): VLI decode/encode round trip and accepted-only-if-canonical for all values, property-byte and dictionary-byte decoders accept exactly the defined sets (finite), documented dictionary relaxation bounds, and the specification\'s constants and LZMA state machine equal those regenerated from the current source. The C decoders are tied to the specification by differential runs (verdict, output, bytes consumed) on generated valid files using every format feature (1-4 filters, all lc/lp/pb, dictionary/state/property resets, uncompressed chunks, sizes present/absent, header padding, all check ids, multi-Block, multi-Stream + padding), field-level and blind mutants, and tests/files, one-shot and randomly sliced.',
    note='PARTIAL: no theorem relates the resumable C state machines to the one-shot specification (decided by correspondence only); SHA-256 collision freedom assumed for the Index hash. Trusted: Coq kernel, tools/gen.py, extraction, generator (payloads by released liblzma 5.4.1), driver glue.',
    technique='Coq executable specification + theorems on codecs/constants; differential correspondence vs extracted spec', ref='§6 C03')
+CLAIMED['C06'] = dict(
+   text='Coq theorems (no axioms): any split of the input gives the same result for the resumable VLI decoder model (and it equals the one-shot decoder), the delta coder, CRC32/CRC64 and the streaming SHA-256; total_in/total_out are exact sums over any call pattern. For the remaining coders the property is decided by differential runs on the real library: every two-piece split of small valid/invalid .xz, .lzma, .lz files, 1-byte input, 1-byte output, random chunks with empty calls (status, bytes consumed, output), and encoder output compared byte for byte across slicings, thread counts 1-4, timeouts, block sizes and textual vs preset filter chains.',
+   note='PARTIAL: slicing independence of the LZMA1/LZMA2/Block/Stream/simple_coder state machines and encoder determinism are explored, not proved. A genuine defect found by this check (known-size .lzma with end marker split inside the marker) was repaired in /repo (fix: commit) and is listed under fixed in known_findings.json.',
+   technique='Coq proof for simple resumable machines + exhaustive two-piece-split differential runs', ref='§6 C06')
 REASONS_PENDING = 'not yet built in this round (work in progress; see DESIGN.md §10 order of work)'
 props = [json.loads(l) for l in open(os.path.join(V, 'properties.jsonl'))]
 checks, na = [], []
